@@ -41,6 +41,7 @@ def weak_bounds(ctx, tk):
     fa = ctx.fa(f)
     sp = f.params[1]
     raw, clamped = [], 0
+    dtype_limit = []
     parents = {}
     for node in ast.walk(f.node):
         for ch in ast.iter_child_nodes(node):
@@ -61,12 +62,26 @@ def weak_bounds(ctx, tk):
                     nm = fn.attr if isinstance(fn, ast.Attribute) else (fn.id if isinstance(fn, ast.Name) else "")
                     if nm in ("max", "min") or "clamp" in nm.lower() or "clip" in nm.lower():
                         ok = True
+                        # the clamp has to be against the row lengths: a limit taken from the index dtype (np.iinfo(..).max) keeps the
+                        # bound inside the dtype but not the sums and differences formed with it afterwards
+                        for other in par.args:
+                            if other is x:
+                                continue
+                            ot = fa.term(other, n)
+                            from_lengths = any(y.k == "attr" and y.a[1] in ("lengths", "ends", "starts") for a in alts(ot) for y in walk(a))
+                            from_dtype = any(y.k == "call" and (attr_chain(y.a[0]) or ("",))[-1] in ("iinfo", "finfo") for a in alts(ot) for y in walk(a)) or \
+                                any(y.k == "const" and isinstance(y.a[0], int) and abs(y.a[0]) >= 2 ** 15 for a in alts(ot) for y in walk(a))
+                            if from_dtype and not from_lengths:
+                                dtype_limit.append(par)
                 if isinstance(par, ast.Compare) and all(isinstance(c, ast.Constant) and c.value is None for c in par.comparators):
                     ok = True           # `is None` tests do no arithmetic
                 if ok:
                     clamped += 1
                 else:
                     raw.append(x)
+    if dtype_limit:
+        ctx.violated("C19.g", f, "column-slice bounds are clamped against the row lengths", "`%s` clamps against a constant of the index dtype: the bound fits, but `stop - start + step - 1` "
+                     "formed with it wraps under 32-bit indices (ra[:, ::2**31-1] loses cells)" % ast.unparse(dtype_limit[0])[:100], node=dtype_limit[0], key="clamp-limit", engine="KB")
     ctx.decide("C19.g", f, what, False if raw else (True if clamped else None),
                "`%s` is used as it came from the caller: under 32-bit indices a bound such as 10**10 raises OverflowError (Python int out of bounds for int32) "
                "in np.minimum / np.maximum against the row lengths, under 64-bit it is clamped" % (ast.unparse(raw[0]) if raw else "",),
